@@ -27,7 +27,7 @@ ID = "C20"
 LEVEL = "exploration"
 RUNS = {"quick": 7000, "thorough": 250000}
 BUDGET = {"quick": 80, "thorough": 1800}
-RULE = ("one run = one fresh shared world + a seeded list of 2-32 operations from an 84-entry catalogue, executed by that many "
+RULE = ("one run = one fresh shared world + a seeded list of 2-32 operations from a 104-entry catalogue, executed by that many "
         "caller threads under one seeded schedule: sequential history | sweep1 (one pre-emption at a chosen line of the first "
         "operation, index-driven so that consecutive runs walk the pre-emption points) | PCT(d<=3) | random switching "
         "(p in 0.02..0.5), line granular, opcode granular inside the hot functions for a third of the runs; the thorough tier adds "
@@ -163,6 +163,8 @@ def prepare_inputs(w: World, label: str = "") -> None:
         i["jwt-jwe"] = jwt.encode({"alg": "A128KW", "enc": "A128GCM"}, {"sub": "carol", "n": 3}, ik["oct16"], registry=w.reg["jwe-all"])
         from joserfc import rfc7797 as _r7797
         i["7797json"] = _r7797.serialize_json({"protected": {"alg": "HS256", "b64": False, "crit": ["b64"]}}, "payload 7797 json", ik["oct"])
+        i["7797compact"] = _r7797.serialize_compact({"alg": "HS256", "b64": False, "crit": ["b64"]}, b"payload.7797", ik["oct"])
+        i["hs-b64true"] = _r7797.serialize_compact({"alg": "HS256", "b64": True, "crit": ["b64"]}, b"payload-b64true", ik["oct"])
         fo = jwe.FlattenedJSONEncryption({"enc": "A128CBC-HS256"}, b"plain-flat", None, b"the aad")
         fo.add_recipient({"alg": "A128KW"}, ik["oct16"])
         i["flat"] = jwe.encrypt_json(fo, None)
@@ -366,6 +368,21 @@ def _ops():
     cons("claims-shared-missing", lambda w: w.claims_reg.validate({"aud": "a"}))
     cons("verify-rs-with-verify-only-key", lambda w: jws.deserialize_compact(w.inputs["rs"], w.k["rsa-verify-ops"]).payload)
     cons("unwrap-with-sign-only-key", lambda w: jwe.decrypt_compact(w.inputs["kw"], w.k["oct16-sig-ops"]).plaintext)
+    # one plain JWS registry object handed to RFC 7797 calls and to plain calls: what either answers does not depend on the other
+    cons("sign-7797-shared-plain-registry", lambda w: rfc7797.serialize_compact(
+        {"alg": "HS256", "b64": False, "crit": ["b64"]}, b"m-7797", w.k["oct"], registry=w.reg["jws-all"]))
+    cons("verify-7797-shared-plain-registry", lambda w: rfc7797.deserialize_compact(w.inputs["7797compact"], w.k["oct"], registry=w.reg["jws-all"]).payload)
+    cons("verify-7797-shared-plain-registry-algorithms", lambda w: rfc7797.deserialize_compact(
+        w.inputs["7797compact"], w.k["oct"], algorithms=["HS256"], registry=w.reg["jws-all"]).payload)
+    cons("verify-b64true-shared-plain-registry", lambda w: jws.deserialize_compact(w.inputs["hs-b64true"], w.k["oct"], registry=w.reg["jws-all"]).payload)
+    cons("sign-b64true-shared-plain-registry", lambda w: jws.serialize_compact(
+        {"alg": "HS256", "b64": True, "crit": ["b64"]}, b"m-b64true", w.k["oct"], registry=w.reg["jws-all"]))
+    cons("verify-hs-shared-plain-registry", lambda w: jws.deserialize_compact(w.inputs["hs"], w.k["oct"], registry=w.reg["jws-all"]).payload)
+    # one any-recipient JWE registry object handed to compact and JSON decryption
+    cons("dec-kw-any-registry", lambda w: jwe.decrypt_compact(w.inputs["kw"], w.k["oct16"], registry=w.reg["jwe-any"]).plaintext)
+    cons("dec-kw-bad-any-registry", lambda w: jwe.decrypt_compact(w.inputs["kw-bad"], w.k["oct16"], registry=w.reg["jwe-any"]).plaintext)
+    cons("jwt-decode-jwe-any-registry", lambda w: jwt.decode(w.inputs["jwt-jwe"], w.k["oct16"], registry=w.reg["jwe-any"]).claims)
+    cons("dec-multi-any-second", lambda w: jwe.decrypt_json(w.inputs["multi"], w.k["ec2"], registry=w.reg["jwe-any"]).plaintext)
     cons("dec-wrong-key", lambda w: jwe.decrypt_compact(w.inputs["kw"], w.k["oct"]).plaintext)
 
     # ---- key operations touching lazy state -----------------------------
@@ -548,6 +565,24 @@ def battery(w: World) -> dict:
     for rn, reg in (("jwe-default", jwe_default), ("jwe-all", w.reg["jwe-all"])):
         obs["reg." + rn] = "".join("1" if verdict(reg, "get_alg", a) else "0" for a in rjwe.ALL_ALGS) + "/" + \
             "".join("1" if verdict(reg, "get_enc", a) else "0" for a in rjwe.ENCS)
+    # header verdicts of the shared JWS registries and the recipient mode of the shared any-recipient registry, asked through calls
+    from joserfc import jws as _jws, jwe as _jwe
+    for rn, reg in (("jws-all", w.reg["jws-all"]), ("reg7797", w.reg7797)):
+        bits = ""
+        for h in ({"alg": "HS256"}, {"alg": "HS256", "b64": True, "crit": ["b64"]}, {"alg": "HS256", "zzz": 1}):
+            try:
+                reg.check_header(h)
+                bits += "1"
+            except (JoseError, ValueError):
+                bits += "0"
+        obs["reg.%s.headers" % rn] = bits
+    try:
+        with warnings.catch_warnings():
+            warnings.simplefilter("ignore")
+            _jwe.decrypt_json(w.inputs["multi"], w.k["ec2"], registry=w.reg["jwe-any"])
+        obs["reg.jwe-any.mode"] = "any"
+    except JoseError as e:
+        obs["reg.jwe-any.mode"] = "refused:" + type(e).__name__
     return obs
 
 
@@ -576,11 +611,23 @@ def later_calls(w: World) -> list[str]:
 STRATEGIES = ["sequential", "sweep1", "sweep1", "pct", "pct", "random", "random"]
 
 
+FAMILIES = [("plain-registry", ), ("any", ), ("hs", "7797", "general", "jwt-encode-jwe"), ("es256", "es384", "verify-es", "jwt-encode", "jwt-decode"), ("rs", "ps256"), ("ed", ),
+            ("kw", "multi", "flat"), ("gcmkw", ), ("pbes2", ), ("ecdh", "xdh", "1pu"), ("1pu", ), ("oaep", ), ("dir", ), ("claims", ),
+            ("set", "keyset"), ("ensure-kid", "as-dict", "thumbprint")]
+
+
 def _pick_ops(rng: Rng, strategy: str, index: int) -> list[str]:
     names = sorted(ops())
     racy = ["sign-es256-set", "sign-rs256-set", "sign-eddsa-set", "enc-set-random", "keyset-construct", "keyset-as-dict",
             "ec-ensure-kid", "ec-as-dict-public", "ec-thumbprint", "sign-es256-key", "enc-ecdh-ec", "pub-ec-ensure-kid",
             "jwt-encode", "oct-ensure-kid", "rsa-thumbprint", "ed-as-dict", "verify-es-privkey", "dec-ecdh"]
+    if strategy != "sequential" and rng.chance(0.3):
+        # operations that meet in the same algorithm object / key / key set: the pairs in which shared per-call state would collide
+        fam = rng.pick(FAMILIES)
+        members = [n for n in names if any(tag in n for tag in fam)]
+        if len(members) >= 2:
+            n = 2 if strategy == "sweep1" else rng.pick([2, 2, 3, 4])
+            return [rng.pick(members) for _ in range(n)]
     if strategy == "sweep1":
         a = rng.pick(racy if rng.chance(0.7) else names)
         b = rng.pick(racy if rng.chance(0.7) else names)
